@@ -54,7 +54,7 @@ theorem wanted_set (cfg : Cfg) (es : List Ev) :
 
 /-! non-vacuity (kernel-evaluated, hash := id): subscribe while disconnected, refused attempt, accepted
     attempt, OP_INFO cut in two chunks: AUTH for that nonce then SUBSCRIBE, nothing before -/
-def exCfg : Cfg := ⟨[109], [115], id⟩
+def exCfg : Cfg := { ident := [109], secret := [115], H := id }
 def exInfo : Bytes := [0,0,0,12,1,2,104,112,9,8,7,6]
 example : (run exCfg [.sub [99], .refuse, .advance 1000, .accept, .data (exInfo.take 7)]).2 =
     [.attempt, .attempt] := by decide +kernel
